@@ -31,8 +31,13 @@ LEVEL_NOTE = ("Trusted: Coq kernel; hand-written models C16/Hooks.v (state machi
               "assume no Hook is built with a pre-hook AND a post-hook whose kwargs torch rejects (safe_op); for that pattern "
               "partial_register_dangling_refuted proves the violation (finding candidate: Hook.register is not exception-safe). "
               "NOT covered: hooks that mutate the hook lists while a call is dispatching, exceptions raised by hook callables, "
-              "deletion of the hooked module, Hook.register(statehook, other_module), complex scale, p < 0, NaN inputs, "
-              "nn.Parameter targets (plain tensor attribute / buffer / nested attribute only).")
+              "deletion of the hooked module, Hook.register(statehook, other_module), complex scale, p < 0, NaN inputs. "
+              "Targets the hooks cannot write are outside the property and only pinned: a bare nn.Parameter attribute "
+              "(Module.__setattr__ raises TypeError when the hook runs; property-backed parameters as in inferno's "
+              "WeightMixin work and are exercised) and Normalization of integer / bool tensors (vector_norm raises). Data "
+              "types, attribute-path resolution at run time and reassigned hook parameters are validated by correspondence "
+              "(per run opportunity, on the implementation's observed pre-state) and by the oracle; float32 targets are "
+              "compared with 3e-6 relative tolerance.")
 HEADER = ("From Coq Require Import List ZArith Bool PrimFloat.\n"
           "From Inferno Require Import Base.Num Base.NumF C16.Hooks C16.Norm C16.HooksExec.\n"
           "Import ListNotations.\nOpen Scope float_scope.\n")
@@ -556,6 +561,306 @@ def oracle_num(case, ri):
     return None, None
 
 
+# ====================================================================== numeric hooks over operation sequences
+# data types of the target: 0 bool, 1 int16, 2 int32, 3 int64, 4 float32, 5 float64
+PATHS = [["data"], ["conn", "data"], ["layer", "conn", "data"]]
+BOUNDS = [{"v": 0.5, "int": False}, {"v": 2.5, "int": False}, {"v": -0.25, "int": False}, {"v": 1.5, "int": False},
+          {"v": 1.0, "int": False}, {"v": 3.0, "int": False}, {"v": 0, "int": True}, {"v": 2, "int": True},
+          {"v": -1, "int": True}, {"v": 5, "int": True}, {"v": 0.3, "int": False}, {"v": -2.7, "int": False}]
+
+
+# no -inf order here: min|x| = 0 divides by eps and repeated runs overflow float32 targets (a rounding artefact,
+# not a property question); the -inf order is covered by the single-call float64 cases
+NSEQ_ORDERS = ["inf", 1, 2, 3.0, 1.5, 0.5, 2.5]
+
+
+def f32(v):
+    import struct
+    return struct.unpack("f", struct.pack("f", v))[0]
+
+
+def store(dt, v):
+    """the number a tensor of data type dt holds after being built from the float64 value v"""
+    if dt == 0:
+        return 1.0 if v != 0 else 0.0
+    if dt in (1, 2, 3):
+        return float(int(v))
+    return f32(v) if dt == 4 else float(v)
+
+
+def gen_data(rng, dt, n):
+    if dt == 0:
+        return [rng.randint(0, 1) for _ in range(n)]
+    if dt in (1, 2, 3):
+        return [rng.randint(-9, 9) for _ in range(n)]
+    return gen_vals(rng, n)
+
+
+def gen_nseq_case(rng: random.Random, malformed: bool):
+    hook = rng.choice(["clamp", "norm"])
+    path = rng.choice(PATHS + PATHS[1:])
+    shape = rng.choice(SHAPES)
+    n = 1
+    for x in shape:
+        n *= x
+    storage = rng.choice(["plain", "plain", "buffer", "buffer", "param"])
+    if malformed and rng.random() < 0.3:
+        storage = "param_direct"
+    if hook == "clamp":
+        dts = [4, 5] if storage.startswith("param") else [0, 1, 2, 3, 3, 4, 5, 5]
+    else:
+        dts = [4, 5, 5] if not (malformed and not storage.startswith("param")) else [2, 3, 5]
+    dt = rng.choice(dts)
+    te, ee = rng.choice([(1, 1), (1, 1), (1, 1), (1, 0), (0, 1)])
+    case = {"kind": "nseq", "hook": hook, "path": path, "inter": rng.choice(["module", "object"]), "storage": storage,
+            "dtype": dt, "shape": shape, "data": gen_data(rng, dt, n), "te": te, "ee": ee, "as_pre": rng.randint(0, 1)}
+
+    def bounds():
+        lo, hi = rng.choice(BOUNDS + [None]), rng.choice(BOUNDS + [None])
+        if lo is None and hi is None:
+            lo = BOUNDS[0]
+        if lo is not None and hi is not None and lo["v"] >= hi["v"]:
+            lo, hi = (hi, lo) if hi["v"] < lo["v"] else (lo, None)
+        return lo, hi
+    nd = len(shape)
+    dims = [None, None, -1, 0] + ([1, [0, 1]] if nd >= 2 else []) + ([[0, 2], 2] if nd >= 3 else [])
+    if hook == "clamp":
+        case["lo"], case["hi"] = bounds()
+    else:
+        case.update(order=rng.choice(NSEQ_ORDERS), scale=rng.choice([1.0, 2.0, -1.5, 0.3, 7.1]),
+                    eps=rng.choice([1e-12, 1e-12, 0.5, 1e-3]), dim=rng.choice(dims))
+    ops = [["reg"]] if rng.random() < 0.85 else []
+    for _ in range(rng.randint(6, 12)):
+        w = {"call": 5, "manual": 2, "train": 1, "exec": 1, "reg": 1, "dereg": 1, "setdata": 2, "setparam": 2,
+             "replace": 4 if len(path) > 1 else 0}
+        k = rng.choices(list(w), weights=list(w.values()))[0]
+        ndt = dt if rng.random() < 0.7 else rng.choice(dts)
+        if k == "call":
+            ops.append(["call"])
+        elif k == "manual":
+            ops.append(["manual", rng.randint(0, 1), rng.randint(0, 1)])
+        elif k == "train":
+            ops.append(["train", rng.randint(0, 1)])
+        elif k == "exec":
+            ops.append(["exec", rng.randint(0, 1), rng.randint(0, 1)])
+        elif k in ("reg", "dereg"):
+            ops.append([k])
+        elif k == "setdata":
+            ops.append(["setdata", ndt, gen_data(rng, ndt, n)])
+            ops.append(["call"])
+        elif k == "replace":
+            # an intermediate object of the path is rebound to a fresh object tree; then the hook runs again
+            ops.append(["replace", rng.randrange(len(path) - 1), ndt, gen_data(rng, ndt, n)])
+            ops.append(rng.choice([["call"], ["call"], ["manual", 1, 1]]))
+        elif k == "setparam":
+            if hook == "clamp":
+                lo, hi = bounds()
+                ops.append(["setparam", "lo", lo])
+                ops.append(["setparam", "hi", hi])
+            else:
+                name = rng.choice(["scale", "order", "eps", "dim"])
+                v = {"scale": rng.choice([1.0, -2.0, 0.7]), "order": rng.choice(NSEQ_ORDERS), "eps": rng.choice([1e-12, 0.5]),
+                     "dim": rng.choice(dims)}[name]
+                ops.append(["setparam", name, v])
+            ops.append(["call"])
+    case["ops"] = ops
+    return case
+
+
+class NSpec:
+    """abstract reading of a numeric hook history: flags + current parameters (no object identities: the target is
+    whatever the attribute path reaches from the hooked module when the hook runs)"""
+
+    def __init__(self, case):
+        self.case = case
+        self.reg, self.te, self.ee, self.training = False, bool(case["te"]), bool(case["ee"]), True
+        self.p = {k: case.get(k) for k in ("lo", "hi", "order", "scale", "eps", "dim")}
+
+    def fire(self, op):
+        armed = (self.te and self.training) or (self.ee and not self.training)
+        if op[0] == "call":
+            return self.reg and armed
+        return (self.reg or bool(op[1])) and (bool(op[2]) or armed)
+
+    def update(self, op):
+        k = op[0]
+        if k == "train":
+            self.training = bool(op[1])
+        elif k == "exec":
+            if op[1]:
+                self.te = bool(op[2])
+            else:
+                self.ee = bool(op[2])
+        elif k == "reg":
+            self.reg = True
+        elif k == "dereg":
+            self.reg = False
+        elif k == "setparam":
+            self.p[op[1]] = op[2]
+
+
+def nseq_steps(case, res):
+    """[(op index, op, flags before, params, value before, observation after)] for the run opportunities"""
+    sp = NSpec(case)
+    out = []
+    tr = res["trace"]
+    for i, op in enumerate(case["ops"]):
+        if op[0] in ("call", "manual"):
+            out.append((i, op, list(tr[i]["flags"]), dict(sp.p), tr[i]["val"], tr[i + 1]))
+        sp.update(op)
+    return out
+
+
+def q_bound(bd):
+    return F.coq_option(None if bd is None else f"({q_fl(bd['v'])}, {b(not bd['int'])})")
+
+
+def q_fire(op, fl):
+    reg, te, ee, tr = fl
+    if op[0] == "call":
+        return f"(fires {b(reg)} {b(te)} {b(ee)} {b(tr)})"
+    return f"(manual_fires {b(reg)} {b(op[1])} {b(op[2])} {b(te)} {b(ee)} {b(tr)})"
+
+
+def q_nseq_terms(case, res):
+    terms = []
+    for i, op, fl, p, val, post in nseq_steps(case, res):
+        if not isinstance(val[0], int) or case["storage"] == "param_direct":
+            terms.append(None)
+            continue
+        dt, shape, flat = val
+        vals = decode_flat(flat)
+        if case["hook"] == "clamp":
+            terms.append(f"clamp_step {q_bound(p['lo'])} {q_bound(p['hi'])} {dt}%nat {q_fire(op, fl)} {q_tensor([vals])}")
+        else:
+            fibs = [[vals[o] for o in f] for f in fibre_index(shape, p["dim"])]
+            terms.append(f"norm_step {q_order(p['order'])} {q_fl(p['scale'])} {q_fl(p['eps'])} {dt}%nat "
+                         f"{q_fire(op, fl)} {q_tensor(fibs)}")
+    return terms
+
+
+def compare_nseq(case, res, trees):
+    """model step (applied to the implementation's observed pre-state) vs implementation post-state"""
+    for (i, op, fl, p, val, post), tm in zip(nseq_steps(case, res), trees):
+        if tm is None:
+            continue
+        if isinstance(tm, Exception):
+            return {"step": i, "op": op, "detail": str(tm)}
+        merr, mdt, mval = tm
+        if merr != post["err"]:
+            return {"step": i, "op": op, "detail": f"error: model {merr}, implementation {post['err']}"}
+        pv = post["val"]
+        if not isinstance(pv[0], int):
+            return {"step": i, "op": op, "detail": f"target unreadable: {pv}"}
+        if pv[0] != mdt:
+            return {"step": i, "op": op, "detail": f"dtype after the run: model {mdt}, implementation {pv[0]}"}
+        got = decode_flat(pv[2])
+        fi = [list(range(len(got)))] if case["hook"] == "clamp" else fibre_index(pv[1], p["dim"])
+        rel = 3e-6 if pv[0] == 4 else 1e-9
+        for f, mf in zip(fi, mval):
+            for off, mv in zip(f, mf):
+                if not F.close(F.dec_float(mv), got[off], rel=rel, ab=1e-12 if pv[0] != 4 else 1e-9):
+                    return {"step": i, "op": op,
+                            "detail": f"element {off}: model {F.dec_float(mv)!r}, implementation {got[off]!r}"}
+    return None
+
+
+def check_clamp(lo, hi, xs, ys, tol):
+    for j, (x, y) in enumerate(zip(xs, ys)):
+        if (lo is not None and y < lo - tol * max(1, abs(lo))) or (hi is not None and y > hi + tol * max(1, abs(hi))):
+            return f"element {j} = {y!r} outside [{lo}, {hi}] after the clamping hook ran", {"kind": "clamp_range"}
+        inside = (lo is None or x >= lo) and (hi is None or x <= hi)
+        if inside and y != x:
+            return f"element {j}: in-range value {x!r} changed to {y!r}", {"kind": "clamp_identity"}
+        if not inside and not any(bd is not None and abs(y - bd) <= tol * max(1, abs(bd)) for bd in (lo, hi)):
+            return f"element {j}: out-of-range value {x!r} mapped to {y!r}, not to a bound", {"kind": "clamp_identity"}
+    return None, None
+
+
+def check_norm(order, scale, eps, shape, dim, xs, ys, rel):
+    for f in fibre_index(shape, dim):
+        xin = [xs[o] for o in f]
+        xout = [ys[o] for o in f]
+        nin = pnorm(order, xin)
+        nout = pnorm(order, xout)
+        if all(x == 0 for x in xin):
+            if any(y != 0 for y in xout):
+                return f"zero fibre {f} became {xout}", {"kind": "norm_zero"}
+            continue
+        if abs(nin - eps) <= 1e-5 * eps:
+            continue
+        want = abs(scale) if nin >= eps else abs(scale) * nin / eps
+        if not F.close(nout, want, rel=rel):
+            return (f"fibre {f}: {order}-norm of the target after the normalisation hook ran is {nout!r}, expected {want!r}",
+                    {"kind": "norm_value"})
+        d = max(nin, eps)
+        for x, y in zip(xin, xout):
+            if not F.close(y, scale * x / d, rel=rel, ab=1e-12 if rel < 1e-7 else 1e-9):
+                return f"fibre {f}: element {x!r} -> {y!r}, expected {scale * x / d!r}", {"kind": "norm_direction"}
+    return None, None
+
+
+def oracle_nseq(case, res):
+    """the property on the value reachable from the hooked module through the attribute path at call time"""
+    sp = NSpec(case)
+    tr = res["trace"]
+    ran = 0
+    for i, op in enumerate(case["ops"]):
+        pre, post = tr[i], tr[i + 1]
+        k = op[0]
+
+        def fail(what, sig):
+            return {"step": i, "op": op, "what": what}, dict(sig, hook=case["hook"])
+        if not isinstance(post["val"][0], int):
+            return fail(f"target attribute unreadable: {post['val']}", {"kind": "nseq_unreadable"})
+        if k in ("call", "manual"):
+            fire = sp.fire(op)
+            direct = case["storage"] == "param_direct"
+            nonfloat_norm = case["hook"] == "norm" and pre["val"][0] < 4
+            outside = direct or nonfloat_norm      # the hook cannot work on such a target: not judged by the property
+            if post["err"]:
+                if not (fire and outside):
+                    return fail(f"unexpected error {post['err']}", {"kind": "nseq_error"})
+                ran = post["ran"]
+            else:
+                if post["ran"] - ran != int(fire):
+                    return fail(f"hook ran {post['ran'] - ran} times, expected {int(fire)} "
+                                f"(flags reg/te/ee/training = {[sp.reg, sp.te, sp.ee, sp.training]})", {"kind": "num_fires"})
+                ran = post["ran"]
+                xs, ys = decode_flat(pre["val"][2]), decode_flat(post["val"][2])
+                if not fire:
+                    if post["val"] != pre["val"]:
+                        return fail("target changed although the hook did not run", {"kind": "num_unarmed_change"})
+                elif not outside:
+                    f4 = post["val"][0] == 4
+                    if case["hook"] == "clamp":
+                        lo = None if sp.p["lo"] is None else sp.p["lo"]["v"]
+                        hi = None if sp.p["hi"] is None else sp.p["hi"]["v"]
+                        if lo is None or hi is None or lo < hi:
+                            d, sig = check_clamp(lo, hi, xs, ys, 1e-6 if f4 else 0.0)
+                            if d:
+                                return fail(d + f" (target dtype {pre['val'][0]} -> {post['val'][0]})", sig)
+                    else:
+                        d, sig = check_norm(sp.p["order"], sp.p["scale"], sp.p["eps"], post["val"][1], sp.p["dim"], xs, ys,
+                                            3e-5 if f4 else 1e-9)
+                        if d:
+                            return fail(d, sig)
+        else:
+            if post["err"]:
+                return fail(f"unexpected error {post['err']}", {"kind": "nseq_error"})
+            if k in ("setdata", "replace"):
+                dt, vals = (op[1], op[2]) if k == "setdata" else (op[2], op[3])
+                want = [store(dt, v) for v in vals]
+                if post["val"][0] != dt or decode_flat(post["val"][2]) != want:
+                    return fail("harness: assigned target not readable back", {"kind": "nseq_harness"})
+            elif post["val"] != pre["val"]:
+                return fail("target changed by an operation that does not run the hook", {"kind": "num_unarmed_change"})
+        sp.update(op)
+        if post["flags"] != [int(sp.reg), int(sp.te), int(sp.ee), int(sp.training)]:
+            return fail(f"flags {post['flags']}", {"kind": "state", "what": "nseq_flags"})
+    return None, None
+
+
 # ====================================================================== driver
 def load_corpus():
     out = []
@@ -569,6 +874,8 @@ def q_case(c):
 
 
 def is_nontrivial(c):
+    if c["kind"] == "nseq":
+        return sum(1 for o in c["ops"] if o[0] in ("call", "manual")) >= 2
     if c["kind"] != "sm":
         return bool(c["reg"])
     kinds = {o[0] for o in c["ops"]}
@@ -578,6 +885,10 @@ def is_nontrivial(c):
 def judge(c, ri, tm):
     """-> (mismatch detail or None, oracle detail or None, signature)"""
     mm = None
+    if c["kind"] == "nseq":
+        mm = compare_nseq(c, ri, tm)
+        od, sig = oracle_nseq(c, ri)
+        return mm, od, sig
     if isinstance(tm, Exception):
         mm = str(tm)
     elif c["kind"] == "sm":
@@ -610,22 +921,46 @@ def run_impl_parallel(cases):
     return [r for part in parts for r in part]
 
 
+def eval_model(cases, impl):
+    """one Coq term per sm / single-call numeric case; one term per run opportunity of a numeric sequence case (the
+    model step is applied to the implementation's observed pre-state, so it needs the implementation's trace)"""
+    terms, slots = [], []
+    for c, ri in zip(cases, impl):
+        if c["kind"] == "nseq":
+            ts = q_nseq_terms(c, ri)
+            idx = []
+            for t in ts:
+                if t is None:
+                    idx.append(None)
+                else:
+                    idx.append(len(terms))
+                    terms.append(t)
+            slots.append(idx)
+        else:
+            slots.append(len(terms))
+            terms.append(q_case(c))
+    out = F.eval_terms(ID, HEADER, terms, shard=max(40, len(terms) // (2 * F.JOBS) + 1))
+    return [([None if j is None else out[j] for j in sl] if isinstance(sl, list) else out[sl]) for sl in slots]
+
+
 def run(ctx):
     rng = random.Random(ctx["seed"])
     quick = ctx["tier"] == "quick"
-    n_sm, n_num = (360, 240) if quick else (4000, 3000)
+    n_sm, n_num, n_seq = (340, 170, 110) if quick else (4000, 2000, 1500)
     cases = load_corpus()
     for i in range(n_sm):
         stream = "fault" if i % 8 == 7 else ("malformed" if i % 4 == 3 else "valid")
         cases.append(gen_sm_case(rng, stream))
     for i in range(n_num):
         cases.append(gen_num_case(rng, malformed=(i % 10 == 9)))
+    for i in range(n_seq):
+        cases.append(gen_nseq_case(rng, malformed=(i % 8 == 7)))
     exhaustive = False
     if not quick:
         cases += exhaustive_sm_cases(4)
         exhaustive = True
     impl = run_impl_parallel(cases)
-    model = F.eval_terms(ID, HEADER, [q_case(c) for c in cases], shard=max(40, len(cases) // (2 * F.JOBS) + 1))
+    model = eval_model(cases, impl)
     mismatches, oracle_fail, candidates = [], [], []
     listed = candidate_listed()
     for c, ri, tm in zip(cases, impl, model):
@@ -659,6 +994,11 @@ def run(ctx):
                 "ContextualHook / StateHook objects with every enable-flag, pre/post, prepend, always_call combination; every "
                 "4th case from a malformed stream, every 8th with torch-rejected kwargs) and Clamping / Normalization hooks run "
                 "through a real module call (6 shapes, 8 norm orders, dims None/int/tuple, plain / buffer / nested attribute); "
+                "numeric-hook operation sequences (call / manual / train / exec / reg / dereg, the final tensor reassigned, an "
+                "INTERMEDIATE object of a 1-3 component attribute path rebound to a fresh object, hook parameters reassigned; "
+                "targets bool / int16 / int32 / int64 / float32 / float64 as plain attribute, buffer or property-backed parameter "
+                "under submodule or plain-object owners; fractional, integral-float and int bounds), post-condition checked on "
+                "the value reachable from the hooked module after each run; "
                 "non-trivial = history with construction, registration and a call (sm) or registered hook (numeric); distinct by "
                 "full case text" + ("; plus every depth-4 sequence over a 13-op alphabet on two hooks" if exhaustive else ""),
         "op_distribution": dict(Counter(o[0] for c in sm for o in c["ops"])),
@@ -668,7 +1008,10 @@ def run(ctx):
         "deleted_hooks_destroyed_by": dict(refc),
         "finding_candidates": [{"signature": CANDIDATE_SIG, "cases": len(candidates),
                                 "example": candidates[0] if candidates else None}],
-        "samples": [sm[0], next(c for c in cases if c["kind"] != "sm")],
+        "samples": [sm[0], next(c for c in cases if c["kind"] not in ("sm", "nseq")),
+                    next(c for c in cases if c["kind"] == "nseq")],
+        "nseq_target_distribution": dict(Counter(f"dt{c['dtype']}/{c['storage']}/{len(c['path'])}" for c in cases
+                                                 if c["kind"] == "nseq")),
         "mismatches": mismatches, "oracle_failures": oracle_fail,
         "traces_validated_against_impl": len(cases) - len(mismatches),
     }
@@ -676,14 +1019,15 @@ def run(ctx):
 
 def failing(case):
     ri = F.run_impl(IMPL, {"cases": [case]})[0]
-    return (oracle_sm if case["kind"] == "sm" else oracle_num)(case, ri)
+    return {"sm": oracle_sm, "nseq": oracle_nseq}.get(case["kind"], oracle_num)(case, ri)
 
 
 def minimise(case, rounds=40):
     """delta debugging on the operation list (constructions are never dropped: hook indices must stay put);
     all candidates of a round run in one subprocess"""
-    if case["kind"] != "sm":
+    if case["kind"] not in ("sm", "nseq"):
         return case, failing(case)[0]
+    orc = oracle_sm if case["kind"] == "sm" else oracle_nseq
     d, sig = failing(case)
     if d is None:
         return case, None
@@ -699,7 +1043,7 @@ def minimise(case, rounds=40):
         if cands:
             res = F.run_impl(IMPL, {"cases": [dict(case, ops=c) for c in cands]})
             for c, ri in zip(cands, res):
-                dd, s2 = oracle_sm(dict(case, ops=c), ri)
+                dd, s2 = orc(dict(case, ops=c), ri)
                 if dd is not None and s2 == sig:
                     better = c[: dd["step"] + 1] if dd["step"] is not None else c
                     break
